@@ -188,7 +188,7 @@ def main(argv=None):
         done[0] += 1
         cid = task["cond"]["id"]
         if task["mode"] == "prove":
-            if res["state"] in ("UNKNOWN",) and task["attempt"] == 1:
+            if res["state"] in ("UNKNOWN",) and task["attempt"] == 1 and task["cond"].get("retry"):
                 log("  .. %s UNKNOWN after %.0fs (%d paths); retrying with doubled budget" % (cid, res["wall_s"], res["paths"]))
                 t = dict(task, timeout=task["timeout"] * 2, attempt=2)
                 results[cid + "#1"] = res
@@ -222,7 +222,7 @@ def main(argv=None):
                 problems.append("%s: confirmed but expected verdict classes %s were never reached (vacuous?)" % (cid, missing))
             else:
                 n_conf += 1
-                if res["paths"] >= 2:
+                if res["paths"] >= 2 and len([t for t, n in res["tags"].items() if n]) >= 2:
                     nontrivial += 1
         elif res["state"] == "REFUTED":
             cex_n += 1
@@ -271,6 +271,13 @@ def main(argv=None):
             if not pr.get("tags", {}).get(tag):
                 problems.append("%s: no witness for %r (%s)" % (cid, tag, res["state"]))
 
+    # 3b. engine E2 part of the property, if any
+    xtra = {}
+    if hasattr(mod, "extra") and not args.only:
+        xtra = mod.extra(args.tier, seed, dict(prop=prop, jobs=args.jobs, replay_dir=replay_dir, root=ROOT))
+        problems.extend(xtra.get("problems", []))
+        violations.extend(xtra.get("violations", []))
+
     # 4. report
     rc = 0
     for cid, rp, detail in violations:
@@ -304,7 +311,7 @@ def main(argv=None):
             "distinct_nontrivial": nontrivial,
             "rule": "one evaluation = one feasible execution path of the real code explored to its end by CrossHair "
                     "(a class of inputs); a condition counts as non-trivial when it was CONFIRMED over >= 2 feasible paths "
-                    "and every expected verdict class was reached",
+                    "that ended in >= 2 different verdict classes (e.g. valid and invalid)",
             "obligations": len(conds),
             "discharged": n_conf,
             "exhaustive": False,
@@ -328,6 +335,16 @@ def main(argv=None):
             ],
         },
     }
+    cov = ev["coverage"]
+    if xtra:
+        cov.update(xtra.get("coverage", {}))
+        cov["obligations"] += xtra.get("obligations", 0)
+        cov["discharged"] += xtra.get("discharged", 0)
+        cov["evaluations"] += xtra.get("evaluations", 0)
+        cov["distinct_nontrivial"] += xtra.get("nontrivial", 0)
+        cov["traces_validated_against_impl"] += xtra.get("validated", 0)
+        cov["samples"] = (xtra.get("samples", []) + cov["samples"])[:40]
+        ev["violations"] = len(violations)
     if not args.only:
         with open(os.path.join(ROOT, "evidence", "%s.json" % prop), "w") as f:
             json.dump(ev, f, indent=1)
